@@ -65,6 +65,7 @@ package proxy
 //@ extern github.com/gorilla/websocket.(*Upgrader).Upgrade
 //@   modifies-all $gUpgraded
 //@   ghost-set gUpgraded = true
+//@   ensures[conn] result1 == nil ==> result0 != nil
 
 // ---- the manager and upstreams as the proxy sees them --------------------------
 
